@@ -113,14 +113,12 @@ let () =
         show "IMPL" im;
         show "SPEC" sp;
         let b x = if x then 1 else 0 in
-        (* which proposed repairs make the model of the code agree with the Standards on this tree *)
+        (* static token features, and whether the proposed repair C09-4 makes the model agree *)
         let v p = b (norm (interp_impl p t) = norm sp) in
-        Printf.printf "ATTR agree=%d repr=%d index=%d dotns=%d vprot=%d vns=%d valias=%d vall=%d\n"
-          (b (norm im = norm sp)) (b (tree_reprlike t)) (b (tree_indexlike t)) (b (tree_dotns t))
-          (v { code_params with prm_prot_inherit = true })
-          (v { code_params with prm_ns_pop = true })
-          (v { code_params with prm_alias_bounded = true })
-          (v { code_params with prm_prot_inherit = true; prm_ns_pop = true; prm_alias_bounded = true });
+        Printf.printf "ATTR agree=%d repr=%d index=%d dotns=%d vnullns=%d\n"
+          (b (norm im = norm sp)) (b (tree_reprlike t)) (b (tree_indexlike t))
+          (b (tree_dotns t && not code_params.prm_nullns))
+          (v { code_params with prm_nullns = true });
         flush stdout
       end
     done
